@@ -58,7 +58,7 @@ func prg(addr uint16, code ...uint8) []byte {
 
 var numIterKinds = []string{"absent", "raise", "0", "1", "3", "2.5", "str3", "nil", "true", "table", "0.5", "0.999"}
 var assertKinds = []string{"true", "false", "nil", "1", "strtrue", "nothing", "truemsg", "raise"}
-var binKinds = []string{"brk", "brk", "brk", "illegal", "bcd", "unmapped", "short", "asmfail", "trapok", "trapraise", "trapmissing", "trapruntime", "trapfirstraise", "trapsecondraise"}
+var binKinds = []string{"brk", "brk", "brk", "illegal", "bcd", "unmapped", "short", "asmfail", "trapok", "trapraise", "trapmissing", "trapruntime", "trapfirstraise", "trapsecondraise", "toobig"}
 
 func luaNumIters(kind string) string {
 	switch kind {
@@ -152,6 +152,9 @@ func verdictCase(r *rng.R, dir string) string {
 		code = prg(0x0800, 0xAD, 0x00, 0x90, 0x00) // LDA $9000 on a 32K machine
 	case "short":
 		code = []byte{0x00, 0x08}
+	case "toobig":
+		// a driver that does not fit into the memory of the machine (32K): loading faults, although what does fit is a BRK
+		code = prg(0x7FFE, 0x00, 0x00, 0x00, 0x00)
 	case "trapok", "trapraise", "trapmissing", "trapruntime":
 		code = prg(0x0800, 0xA9, 0x42, 0x8D, 0x00, 0x7F, 0xE8, 0x00) // LDA #$42; STA $7F00 (trap); INX
 	case "trapfirstraise", "trapsecondraise":
